@@ -1,5 +1,6 @@
 import Pyunicorn.Model.Proto
 import Pyunicorn.Model.Pure
+import Pyunicorn.Model.PureWindow
 import Pyunicorn.Generated.StructC06
 /-! Line-protocol driver for C06. -/
 open Pyunicorn Pyunicorn.Proto Pyunicorn.Pure Pyunicorn.Generated
@@ -16,8 +17,49 @@ def parsePairs (s : String) : List (Nat × Nat) :=
     | [a, b] => do some ((← a.toNat?), (← b.toNat?))
     | _ => none
 
+def stepLetter : WStep → String
+  | .mask => "m" | .edit => "e" | .restore => "r" | .comp => "c"
+  | .call _ => "k" | .exit _ => "x" | .other _ => "o"
+  | .tryB => "t" | .fin => "f" | .tryE => "y"
+
+def findWindow (site : String) : Option Window :=
+  StructC06.windows.find? (·.site == site)
+
+/-- contents of the shared array before every step of the block and at the end, on the real
+content (integers, `inf` coded as `-1`), `c` = the temporary constant -/
+def windowTrace (w : Window) (c : Int) (x : List (List Int)) : List (List Int) :=
+  match w.form with
+  | .maskInf => wtrace (maskOps (· == (-1 : Int)) c (-1)) (WState.start x.flatten []) w.steps
+  | .diagInfZero => (wtrace (diagOps c (0 : Int)) (WState.start x ()) w.steps).map List.flatten
+
+/-- the block is run with step `k` raising: final content of the shared array and whether
+control has left the block -/
+def windowRaise (w : Window) (c : Int) (k : Nat) (x : List (List Int)) : List Int × Bool :=
+  let ch := (List.replicate k false) ++ [true]
+  match w.form with
+  | .maskInf =>
+      let r := wexec (maskOps (· == (-1 : Int)) c (-1)) (WState.start x.flatten []) w.steps ch
+      (r.cur, r.left)
+  | .diagInfZero =>
+      let r := wexec (diagOps c (0 : Int)) (WState.start x ()) w.steps ch
+      (r.cur.flatten, r.left)
+
 def answer (toks : List String) : String :=
   match toks with
+  | ["wraise", site, c, k, content] => match findWindow site with
+      | none => "no-window"
+      | some w =>
+        let r := windowRaise w (c.toInt?.getD 0) k.toNat! (intMat content)
+        showInts r.1 ++ "|" ++ (if r.2 then "1" else "0")
+  | ["wok"] => if windowsOK StructC06.windows then "1" else "0"
+  | ["woffenders"] => let o := windowOffenders StructC06.windows
+      if o.isEmpty then "-" else join o ","
+  | ["wsteps", site] => match findWindow site with
+      | none => "no-window"
+      | some w => join (w.steps.map stepLetter) ""
+  | ["wtrace", site, c, content] => match findWindow site with
+      | none => "no-window"
+      | some w => join ((windowTrace w (c.toInt?.getD 0) (intMat content)).map showInts) "|"
   | ["clean"] => if effectsClean StructC06.effects then "1" else "0"
   | ["offenders"] => let o := offenders StructC06.effects
       if o.isEmpty then "-" else join o ","
